@@ -15,6 +15,17 @@ CHECKS = {
              "A complete grid of payload lengths 0..300 and 65530..65540 x 3 length forms x 1/2 fragments is "
              "enumerated. Exploration, not proof: sizes <= 200000 bytes, <= 12 messages.",
         note="Trusts the harness's independent frame builder (self-tested on RFC 6455 5.7 examples), CPython, Hypothesis."),
+    "C04": dict(
+        category="exploration", design_ref="DESIGN.md section 3 / C04",
+        technique="exhaustive enumeration of all 65536 frame headers x 4 contexts + Hypothesis violation injection, differential against a reference RFC 6455 reading",
+        text="All 65536 two-byte frame headers (completed with the extended length, mask key and payload they announce; "
+             "lengths 126/127 with a table of extended values incl. 2^63-1, 2^63, 2^64-1) are fed to the real client in four "
+             "contexts and its verdict/events compared with an independent executable reading of RFC 6455 - exhaustive for that "
+             "space. Hypothesis then injects one violating frame of each of 13 classes after generated conforming prefixes "
+             "(possibly inside an unfinished message, client possibly closing), with conforming suffix and arbitrary read "
+             "segmentation, and checks the five clauses (prefix delivered, exactly one ProtocolError, nothing later delivered, "
+             "non-graceful Disconnected, at most one Close written). Beyond the enumerated space it is sampling.",
+        note="Trusts harness/refmodel.py (self-tested per violation class), harness/wire.py, zlib for RSV1 contexts."),
 }
 
 PENDING = {}
